@@ -379,6 +379,15 @@ class Unit:
         elif solver == 'cvc5': cb.append('--cvc5')
         elif solver == 'z3': cb.append('--z3')
         elif solver == 'kissat': cb += ['--external-sat-solver', 'kissat']
+        if canary and p.opts.get('fastcanary') == '1':
+            # vacuity run restricted to the canary assertion itself (cbmc --property): same question (is the end reachable under the
+            # requires / invariants / callee contracts?), without re-deciding every other obligation
+            sp = subprocess.run(['cbmc', gb2, '--show-properties', '--json-ui'], capture_output=True, text=True)
+            try:
+                names = [q['name'] for m in json.loads(sp.stdout) if 'properties' in m for q in m['properties'] if 'canary' in q.get('description', '')]
+            except Exception:
+                names = []
+            for nm in names: cb += ['--property', nm]
         if not canary: p.cmds = [' '.join(cc), ' '.join(gi), ' '.join(cb)]
         tmo = int(p.opts.get('timeout', '600'))
         t0 = time.time()
